@@ -79,6 +79,8 @@ def n(e, keep_casts=False):
         if isinstance(e[1], tuple):
             return ("mutated", n(e[1], keep_casts))
         return ("mutated", ("lv", e[1]))
+    if k == "val":
+        return n(e[1], keep_casts)
     if k == "proj":
         return ("proj", n(e[1], keep_casts), e[2])
     return e
@@ -153,10 +155,14 @@ def find_all(e, pred):
 
     def rec(x):
         if isinstance(x, tuple):
-            if pred(x):
-                out.append(x)
-            for y in x[1:]:
-                rec(y)
+            if x and isinstance(x[0], str):
+                if pred(x):
+                    out.append(x)
+                for y in x[1:]:
+                    rec(y)
+            else:
+                for y in x:
+                    rec(y)
         elif isinstance(x, list):
             for y in x:
                 rec(y)
